@@ -183,10 +183,44 @@ class C05(Campaign):
                 continue
             out["violations"].append({"clause": clause, "kind": f["kind"], "op": f["op"], "detail": f["detail"]})
             break
+        if not out["violations"] and not any(u in self.DESYNC for u in out["unarmed"]):
+            v = self.guard_order(m)
+            if v:
+                out["violations"].append(v)
         if not out["violations"] and res["never_awaited"]:
             out["violations"].append({"clause": "C05.never_awaited", "kind": "never_awaited", "op": None,
                                       "detail": {"warnings": res["never_awaited"][:3]}})
         return out
+
+    @staticmethod
+    def guard_order(m):
+        """Within one candidate the guard entries are evaluated one at a time, in declaration order, and
+        evaluation stops at the first entry that fails -- on the async engine exactly as on the sync one
+        (checked where the reference can name the order, see RefInst.guard_order)."""
+        def walk(execs, n):
+            for ex in execs:
+                for it in ex.get("items", []):
+                    if it.get("g") == "guards" and it.get("order") is not None and not it.get("failing") \
+                            and "_seen" in it:
+                        seen = it["_seen"]
+                        if seen != it["order"]:
+                            return {"clause": "C05.twin_phases", "kind": "guard_order", "op": n,
+                                    "detail": {"event": it.get("ev"), "state": it.get("src"),
+                                               "evaluated": seen, "expected_in_declaration_order": it["order"]}}
+                    for mem in it.get("members", []):
+                        v_ = walk(mem.get("nested") or [], n)
+                        if v_:
+                            return v_
+            return None
+
+        for n in sorted(m.exp_by_op):
+            exp = m.exp_by_op[n]
+            if exp.get("exc") is not None:
+                continue
+            v = walk(exp.get("execs") or [], n)
+            if v:
+                return v
+        return None
 
     def nontrivial(self, sc, ev):
         res = ev["res"]
